@@ -96,6 +96,12 @@ def eval_scene(fam, s):
     if k == 'parallelepiped':
         return must_raise('parallelepiped', s[1], s,
                           lambda: Parallelepiped(Point(*fp(s[2])), Vector(*fp(s[3])), Vector(*fp(s[4])), Vector(*fp(s[5]))))
+    if k == 'pyramid-moved':
+        cyc, apex, v1, v2 = s[1], s[2], s[3], s[4]
+        base = lib.construct('ConvexPolygon', lambda: ConvexPolygon(tuple(Point(*fp(X.sub(X.sub(p, v1), v2))) for p in cyc)))
+        base.move(Vector(*fp(v1)))
+        base.move(Vector(*fp(v2)))
+        return must_raise('pyramid', 'apex-in-plane-of-a-base-moved-twice', s, lambda: Pyramid(base, Point(*fp(apex)), direct_call=False))
     if k == 'pyramid':
         cyc, apex = s[1], s[2]
         return must_raise('pyramid', 'apex-in-base-plane', s,
@@ -276,6 +282,8 @@ def families(tier):
             for ap in product((-1, 0, 1, 3), (-2, 0, 1, 2), (0,)):
                 sc.append(('pyramid', tuple(pose.point(p) for p in cyc), pose.point(ap)))
                 sc.append(('pyramid', tuple(pose.point(p) for p in cyc), pose.point(X.add(ap, (0, 0, F(1, 10 ** 12))))))
+                if ap[0] == ap[1]:
+                    sc.append(('pyramid-moved', tuple(pose.point(p) for p in cyc), pose.point(ap), pose.vec((1, 0, 2)), pose.vec((0, -1, 1))))
     fams.append(ListFamily('pyramids', sc))
     # face sets
     sc = []
